@@ -24,3 +24,8 @@ claim("C07", "model_checking",
       "float cos/sin; reference closed-form harmonics (validated against quadrature by C08); parameter palettes",
       "bounded-exhaustive enumeration of constructor x parameter x frequency x context on the implementation against a reference model",
       "DESIGN.md section 4 C07")
+claim("C02", "model_checking",
+      "Every circuit of the listed topology levels x component-kind assignments (all passive kinds, dc/ac/complex sources, ideal and lossy) x orientation is analysed at every frequency of an alphabet placed on, just inside, just outside and away from the source frequencies, as peak phasors, RMS phasors and DC solution, and compared with an exact-rational phasor reference (well-posedness decided exactly per frequency).",
+      "numpy linear algebra; float cos/sin; palettes; ComplexSolution's fixed default resolution",
+      "bounded-exhaustive enumeration of circuits x frequencies on the implementation against an exact reference model",
+      "DESIGN.md section 4 C02")
